@@ -14,7 +14,7 @@ import (
 
 // Op is one step performed while spinning callers run.
 type Op struct {
-	K       string `json:"k"` // update | health | sleep
+	K       string `json:"k"`                 // update | health | sleep
 	Targets []int  `json:"targets,omitempty"` // update: indexes into the 6 addresses; -1 is an empty string; duplicates allowed
 	A       int    `json:"a,omitempty"`
 	Up      bool   `json:"up,omitempty"`
@@ -27,7 +27,9 @@ type Case struct {
 	Director int   `json:"director"` // -2 none, -1 returns "", k>=0 always returns address k
 	Initial  []int `json:"initial"`
 	Spinners int   `json:"spinners"`
-	PingMS   []int `json:"ping_ms"` // per address: how long a health probe takes (slow probes are in flight across Updates)
+	PingMS   []int `json:"ping_ms"`           // per address: how long a health probe takes (slow probes are in flight across Updates)
+	LatUS    []int `json:"lat_us,omitempty"`  // per address: how long a call takes (distinct latencies give LeastTime a favourite)
+	TickMS   int   `json:"tick_ms,omitempty"` // Client.Tick (LeastTime exploration period); 0 = 5 ms
 	Ops      []Op  `json:"ops"`
 }
 
@@ -57,13 +59,45 @@ func gen(t *rapid.T) Case {
 		}
 		c.PingMS = append(c.PingMS, ms)
 	}
+	if rapid.Bool().Draw(t, "latencies") {
+		for i := 0; i < 6; i++ {
+			c.LatUS = append(c.LatUS, rapid.SampledFrom([]int{0, 100, 400, 1500, 4000}).Draw(t, "lat_us"))
+		}
+		c.TickMS = rapid.SampledFrom([]int{0, 50, 1000}).Draw(t, "tick_ms")
+	}
 	n := rapid.IntRange(2, 8).Draw(t, "nops")
+	cur := append([]int(nil), c.Initial...)
 	for i := 0; i < n; i++ {
 		k := rapid.IntRange(0, 9).Draw(t, "k")
 		op := Op{SleepMS: rapid.SampledFrom([]int{0, 1, 5, 30, 110, 150}).Draw(t, "sleep_ms")}
 		switch {
 		case k <= 5:
-			op.K, op.Targets = "update", genTargets(t)
+			op.K = "update"
+			switch how := rapid.IntRange(0, 5).Draw(t, "how"); {
+			case how <= 1 && len(cur) >= 2:
+				// the new set overlaps the old one: one or two targets leave (the fastest one when
+				// latencies differ and the draw says so), the others stay
+				next := append([]int(nil), cur...)
+				drop := rapid.IntRange(0, len(next)-1).Draw(t, "drop")
+				if len(c.LatUS) == 6 && rapid.Bool().Draw(t, "drop_fastest") {
+					for j, a := range next {
+						if a >= 0 && (next[drop] < 0 || c.LatUS[a] < c.LatUS[next[drop]]) {
+							drop = j
+						}
+					}
+				}
+				next = append(next[:drop], next[drop+1:]...)
+				if len(next) >= 3 && rapid.Bool().Draw(t, "drop_two") {
+					next = next[1:]
+				}
+				op.Targets = next
+			case how == 2:
+				// overlap plus a newcomer
+				op.Targets = append(append([]int(nil), cur...), rapid.IntRange(-1, 5).Draw(t, "newcomer"))
+			default:
+				op.Targets = genTargets(t)
+			}
+			cur = append([]int(nil), op.Targets...)
 		case k <= 7:
 			op.K, op.A, op.Up = "health", rapid.IntRange(0, 5).Draw(t, "a"), rapid.Bool().Draw(t, "up")
 		default:
@@ -136,11 +170,25 @@ func run(c Case) kit.Outcome {
 			frt.SetPingLatency(addrs[i], time.Duration(ms)*time.Millisecond)
 		}
 	}
+	if len(c.LatUS) > 6 || c.TickMS < 0 || c.TickMS > 10000 {
+		return kit.Outcome{Invalid: true}
+	}
+	for i, us := range c.LatUS {
+		if us < 0 || us > 100000 {
+			return kit.Outcome{Invalid: true}
+		}
+		if us > 0 {
+			frt.SetLatency(addrs[i], time.Duration(us)*time.Microsecond)
+		}
+	}
 	client := rpc.NewClient(nil)
 	client.Transport = frt
 	client.Scheduling = rpc.Scheduling(c.Policy)
 	client.DialTimeout = 400 * time.Millisecond
 	client.Tick = 5 * time.Millisecond
+	if c.TickMS > 0 {
+		client.Tick = time.Duration(c.TickMS) * time.Millisecond
+	}
 	switch {
 	case c.Director == -1:
 		client.Director = func() string { return "" }
@@ -258,6 +306,9 @@ func run(c Case) kit.Outcome {
 		}
 	}
 	out := kit.Outcome{Counters: map[string]int{"routed_calls": routed}, Classes: []string{fmt.Sprintf("policy=%d", c.Policy)}}
+	if len(c.LatUS) > 0 {
+		out.Classes = append(out.Classes, "distinct-call-latencies")
+	}
 	if removedLive && toTargets > 0 {
 		out.Nontrivial = true
 	}
